@@ -137,7 +137,7 @@ func (p *SNIProxy) ServeTCP(in net.Conn) error {
 
 	errc := make(chan error, 2)
 	cp := func(dst io.Writer, src io.Reader, c gkm.Counter) {
-		errc <- copyBuffer(dst, src, c)
+		errc <- halfClose(dst, copyBuffer(dst, src, c))
 	}
 
 	// we've received the ClientHello already
@@ -150,6 +150,11 @@ func (p *SNIProxy) ServeTCP(in net.Conn) error {
 	// arrived together with the ClientHello are still in its buffer
 	go cp(out, tlsReader, t.TxCounter)
 	err = <-errc
+	if err == nil {
+		// one direction has ended and the other side has been told:
+		// let the opposite direction deliver what is still on its way
+		<-errc
+	}
 	if err != nil && err != io.EOF {
 		log.Print("[WARN]: tcp+sni:  ", err)
 		return err
